@@ -30,11 +30,12 @@ class TreeMon:
             self.in_band = self.P["c1"] * self.P["delta"] <= 0.5
         else:
             self.in_band = True
-        x = None
+        self.hoo_bound = self.hoo_ceils = None
         if kind == "T_HOO":
             P = self.P
-            x = (math.log(P["n"]) / 2 - math.log(1 / P["nu"])) / math.log(1 / P["rho"])
-        self.hoo_bound = x
+            self.hoo_ceils, self.hoo_bound, self.hoo_exact_integer = C.hoo_depth_bounds(P["n"], P["nu"], P["rho"])
+            if self.hoo_exact_integer:
+                self.obs("hoo_bound_exactly_integer_runs")
         for n in C.all_nodes(self.part):
             self.hist.setdefault(id(n), [])
         self.init_nodes = len(self.hist)
@@ -54,7 +55,7 @@ class TreeMon:
         for c in ev["children"]:
             self.hist.setdefault(id(c), [])
         self.events.append(ev)
-        if ev["phase"] in ("pull", "query", "last"):
+        if ev["phase"] in ("pull", "query", "last", "midquery"):
             self.V("C06:expansion_outside_receive_reward", phase=ev["phase"], depth=ev["parent"].get_depth())
 
     def dt(self, tp):
@@ -243,10 +244,11 @@ class TreeMon:
         expanded = bool(evs)
         if self.kind == "T_HOO":
             x = self.hoo_bound
-            want = {n.get_depth() <= c for c in C.ceil3(x)}
+            want = {n.get_depth() <= c for c in self.hoo_ceils}
             if expanded not in want:
-                self.V("C06:T_HOO_expansion_decision", depth=n.get_depth(), bound=x, expanded=expanded)
-            lim_hi = max(1, max(C.ceil3(x)) + 1)
+                self.V("C06:T_HOO_expansion_decision", depth=n.get_depth(), bound=x, expanded=expanded,
+                       admissible_ceil=sorted(self.hoo_ceils))
+            lim_hi = max(1, max(self.hoo_ceils) + 1)
             if self.part.get_depth() > lim_hi:
                 self.V("C06:T_HOO_tree_deeper_than_bound_plus_one", depth=self.part.get_depth(), bound=x)
         elif self.in_band:
